@@ -282,12 +282,10 @@ func (s *Storage) commit(context interpreter.ValueTransferContext, commitContrac
 		s.commitContractUpdates(context)
 	}
 
-	err := s.AccountStorage.commit()
-	if err != nil {
-		return err
-	}
-
-	// Commit the underlying slab storage's writes
+	// Meter the commit of the underlying slab storage's writes.
+	//
+	// NOTE: meter before the first write to the ledger (the commit of the account storage),
+	// as the metering might fail (limit exceeded), and a failing commit must not have written anything.
 
 	slabStorage := s.PersistentSlabStorage
 
@@ -309,6 +307,15 @@ func (s *Storage) commit(context interpreter.ValueTransferContext, commitContrac
 
 	deltas := slabStorage.DeltasWithoutTempAddresses()
 	common.UseMemory(context, common.NewAtreeEncodedSlabMemoryUsage(deltas))
+
+	// Commit the account storage's writes (new account storage maps)
+
+	err := s.AccountStorage.commit()
+	if err != nil {
+		return err
+	}
+
+	// Commit the underlying slab storage's writes
 
 	// TODO: report encoding metric for all encoded slabs
 	workerCount := goRuntime.NumCPU()
